@@ -335,8 +335,24 @@ func c15(c *core.Ctx) {
 			})
 			c.Check(!early && core.MustPass(core.Entry(rs), core.Returns(rs)[0], func(x ssa.Instruction) bool { return x == ssa.Instruction(dc) }), k+".RegisterService:registry-first", dc.Pos(), "the registry (which may refuse by panicking) is updated before any handler is mounted", "a handler can be mounted before the registry accepted the registration: a refused registration would leave the mux changed")
 			if gi := declaredMethod(p, nt, "GetServiceInfo"); gi != nil {
-				okGI := len(core.CallsIn(gi, func(_ *ssa.Call, ci core.CallInfo) bool { return ci.Name == "GetServiceInfo" && ci.Recv == reg.Obj().Name() })) == 1
-				c.Check(okGI, k+".GetServiceInfo:delegates", gi.Pos(), "delegates to the registry", "GetServiceInfo does not delegate to the registry")
+				gcalls := core.CallsIn(gi, func(_ *ssa.Call, ci core.CallInfo) bool { return ci.Name == "GetServiceInfo" && ci.Recv == reg.Obj().Name() })
+				okGI := len(gcalls) == 1
+				if okGI {
+					// the result is the registry's fresh answer (or nil), and nothing is cached in the transport
+					for _, r := range core.Returns(gi) {
+						if !core.AllOrigins(r.Results[0], func(o ssa.Value) bool { return o == ssa.Value(gcalls[0]) || core.IsNilConst(o) }) {
+							okGI = false
+						}
+					}
+					core.Instrs(gi, func(in ssa.Instruction) {
+						if st, ok := in.(*ssa.Store); ok {
+							if _, _, isF := core.FieldOf(st.Addr); isF {
+								okGI = false
+							}
+						}
+					})
+				}
+				c.Check(okGI, k+".GetServiceInfo:delegates", gi.Pos(), "returns the registry's fresh answer, caches nothing", "GetServiceInfo does not return the registry's fresh answer (not delegated, or memoised in the transport: later registrations would be missing)")
 			}
 		}
 		if n < 2 {
